@@ -38,6 +38,7 @@ def run(ctx, prop, extra=()):
             impl[r[0]] = r[1]
     gens = core.read_tsv(outs, "gen.tsv")
     meta = core.merge_meta(outs)
+    ctx.json_shapes = [(r[0], r[1], r[2], impl.get(r[0], "MISSING")) for r in core.read_tsv(outs, "shape.tsv") if len(r) >= 3]
     answers = core.run_driver(cases, ctx, name="json")
     if len(answers) != len(cases):
         ctx.broken.append({"kind": "driver-desync", "detail": "%d cases, %d answers" % (len(cases), len(answers))})
@@ -261,6 +262,24 @@ def check(ctx, prop, modules, theorems, rule, explanation, assumptions, level="p
             k = g[1] if not (len(g) > 3 and g[3]) else "broken"
             gout[k] = gout.get(k, 0) + 1
         core.flag_broken_packages(ctx, gens, "none of its types can be encoded or decoded")
+        if prop == "C07":
+            # the generated Go type: a required property that can be left unset would be omitted from the
+            # encoding, an optional one that cannot would be written as a zero value nobody set
+            nshape = 0
+            for cid, tn, want, got in getattr(ctx, "json_shapes", []):
+                if got == "MISSING":
+                    continue  # package not driven (reported above if it did not compile)
+                st["evaluations"] += 1
+                nshape += 1
+                if got != "shape=" + want:
+                    if nshape <= 10**9 and len([v for v in ctx.violations if v.get("kind", "").startswith("the Go type")]) < 2:
+                        ctx.violations.append({"kind": "the Go type generated for an object schema lets a required property be omitted (or forces an optional one)",
+                                               "case": cid, "type": tn, "declared (R = required, O = optional, property-name order)": want,
+                                               "generated": got, "spec": spec_of(gens, cid)})
+                else:
+                    st["agree_model"] += 1
+                    st["agree_ref"] += 1
+            st["kinds"]["type-shape"] = nshape
     cov = dict(audit)
     cov.update({
         "trusted_base": TRUSTED, "evaluations": st["evaluations"], "distinct_nontrivial": st["distinct_nontrivial"], "rule": rule,
